@@ -79,7 +79,7 @@ def val_engine(m):
 def c07(m, tier):
     eng = val_engine(m)
     return [rules_val.rule_val(m, eng), rules_val.rule_sanitizer(m, eng), rules_val.rule_throw_before_write(m),
-            rules_val.rule_getlabel(m), rules_decl.rule_throw(m), rules_struct.rule_label_writes(m)]
+            rules_val.rule_getlabel(m), rules_decl.rule_throw(m), rules_struct.rule_label_writes(m), rules_decl.rule_defaults(m), rules_ts.rule_cursor_direction(m)]
 
 
 def _pair(m, classes, rules, minimum):
@@ -101,21 +101,21 @@ def c01(m, tier):
     return _pair(m, [LDG], ['F-PAIR.N', 'F-PAIR.S'], {'F-PAIR.N': 15, 'F-PAIR.S': 2}) + [
         rules_struct.rule_insertion_guard(m), rules_struct.rule_hasedge(m), rules_struct.rule_full_loops(m, [LDG]),
         rules_struct.rule_observers(m), rules_decl.rule_encapsulation(m), rules_struct.rule_bulk_complete(m),
-        rules_struct.rule_forwarding(m), rules_struct.rule_observer_loops(m)]
+        rules_struct.rule_forwarding(m), rules_struct.rule_observer_loops(m), rules_decl.rule_defaults(m), rules_ts.rule_cursor_direction(m)]
 
 
 def c02(m, tier):
     return _pair(m, [LUG], ['F-PAIR.M', 'F-PAIR.N', 'F-KEY'], {'F-PAIR.M': 10, 'F-PAIR.N': 10, 'F-KEY': 7}) + [
         rules_struct.rule_ordered_edge(m), rules_struct.rule_selfloop_convention(m), rules_struct.rule_insertion_guard(m),
         rules_struct.rule_hasedge(m), rules_struct.rule_full_loops(m, [LUG]), rules_struct.rule_observers(m),
-        rules_decl.rule_encapsulation(m), rules_struct.rule_bulk_complete(m), rules_struct.rule_observer_loops(m)]
+        rules_decl.rule_encapsulation(m), rules_struct.rule_bulk_complete(m), rules_struct.rule_observer_loops(m), rules_decl.rule_defaults(m), rules_ts.rule_cursor_direction(m)]
 
 
 def c03(m, tier):
     return _pair(m, None, ['F-PAIR.L', 'F-KEY'], {'F-PAIR.L': 30, 'F-KEY': 15}) + [
         rules_struct.rule_label_writes(m, coherent_store=True), rules_val.rule_getlabel(m), rules_struct.rule_hasedge(m),
         rules_struct.rule_insertion_guard(m), rules_struct.rule_label_subscripts(m), rules_struct.rule_bulk_complete(m),
-        rules_struct.rule_full_loops(m, [LDG, LUG])]
+        rules_struct.rule_full_loops(m, [LDG, LUG]), rules_decl.rule_defaults(m), rules_ts.rule_cursor_direction(m)]
 
 
 def c04(m, tier):
@@ -124,7 +124,7 @@ def c04(m, tier):
         rules_struct.rule_positive_multiplicity(m), rules_struct.rule_insertion_guard(m),
         rules_struct.rule_observers(m), rules_struct.rule_selfloop_convention(m), rules_struct.rule_label_writes(m),
         rules_struct.rule_bulk_complete(m), rules_struct.rule_setters(m),
-        rules_struct.rule_forwarding(m), rules_struct.rule_observer_loops(m), rules_struct.rule_full_loops(m, [DMG, UMG])]
+        rules_struct.rule_forwarding(m), rules_struct.rule_observer_loops(m), rules_struct.rule_full_loops(m, [DMG, UMG]), rules_decl.rule_defaults(m), rules_ts.rule_cursor_direction(m)]
 
 
 def c05(m, tier):
@@ -133,23 +133,24 @@ def c05(m, tier):
         rules_struct.rule_insertion_guard(m), rules_struct.rule_observers(m), rules_struct.rule_label_writes(m),
         rules_decl.rule_encapsulation(m), rules_val.rule_getlabel(m), rules_struct.rule_bulk_complete(m),
         rules_struct.rule_setters(m), rules_struct.rule_label_subscripts(m), rules_struct.rule_forwarding(m),
-        rules_struct.rule_observer_loops(m), rules_struct.rule_full_loops(m, [DWG, UWG])]
+        rules_struct.rule_observer_loops(m), rules_struct.rule_full_loops(m, [DWG, UWG]), rules_decl.rule_defaults(m), rules_ts.rule_cursor_direction(m)]
 
 
 def c06(m, tier):
     return [rules_struct.rule_equality(m)] + _pair(
         m, None, ['F-PAIR.L', 'F-PAIR.N', 'F-PAIR.S', 'F-KEY'], {'F-PAIR.L': 30, 'F-PAIR.N': 40, 'F-KEY': 15}) + [
-        rules_decl.rule_valsem(m), rules_struct.rule_label_writes(m, coherent_store=True), rules_struct.rule_label_subscripts(m)]
+        rules_decl.rule_valsem(m), rules_struct.rule_label_writes(m, coherent_store=True), rules_struct.rule_label_subscripts(m),
+        rules_ts.rule_cursor_direction(m)]
 
 
 def c16(m, tier):
     return [rules_struct.rule_insertion_guard(m)] + _pair(
         m, None, ['F-PAIR.N', 'F-PAIR.T', 'F-PAIR.M', 'F-PAIR.L'],
-        {'F-PAIR.N': 40, 'F-PAIR.T': 17, 'F-PAIR.M': 15, 'F-PAIR.L': 30}) + [rules_ts.rule_sorted_range(m)]
+        {'F-PAIR.N': 40, 'F-PAIR.T': 17, 'F-PAIR.M': 15, 'F-PAIR.L': 30}) + [rules_ts.rule_sorted_range(m), rules_decl.rule_defaults(m), rules_ts.rule_cursor_direction(m)]
 
 
 def c08(m, tier):
-    return [rules_xport.rule_idx(m), rules_struct.rule_full_loops(m), rules_ts.rule_typestate(m)]
+    return [rules_xport.rule_idx(m), rules_struct.rule_full_loops(m), rules_ts.rule_typestate(m), rules_ts.rule_cursor_direction(m)]
 
 
 def c09(m, tier):
@@ -182,7 +183,7 @@ def c17(m, tier):
     wl, bound, heap = rules_wl.run_searches(m, {'S-LC'})
     heap.require_sites(3, 'heap facts')
     return [rules_ts.rule_typestate(m), heap, rules_io.rule_checked_read(m), rules_val.rule_val(m, val_engine(m)),
-            rules_xport.rule_idx(m), rules_io.rule_wrap(m), rules_io.rule_tokeniser_access(m), rules_decl.rule_init(m), rules_ts.rule_signed_arith(m), rules_ts.rule_sorted_range(m)]
+            rules_xport.rule_idx(m), rules_io.rule_wrap(m), rules_io.rule_tokeniser_access(m), rules_decl.rule_init(m), rules_ts.rule_signed_arith(m), rules_ts.rule_sorted_range(m), rules_ts.rule_cursor_direction(m)]
 
 
 def c11(m, tier):
